@@ -47,7 +47,7 @@ Theorem C15_header_consts :
   emdf_trailer = [(0, 5); (1, 2); (0, 2); (0, 8)] /\
   t35_provider_code_bits = 16 /\ t35_provider_oriented_code_bits = 32 /\
   firstn 2 t35_payload_header = [0; t35_provider_code] /\ av1_min_len = 34.
-Proof. vm_compute. repeat split; reflexivity. Qed.
+Proof. vm_compute. repeat split; try reflexivity. Qed.
 
 (* the fixed T.35 header bytes are what the writer produces for the first 9 bytes (size >= 256 form) *)
 Example C15_example_header :
